@@ -36,6 +36,9 @@ def run_check(prop, repo_dir, evid_dir):
     return r.returncode, r.stdout, keys
 
 
+ALL_PROPS = False
+
+
 def one(mut):
     t0 = time.time()
     scratch = tempfile.mkdtemp(prefix="verif-mutant-")
@@ -61,8 +64,23 @@ def one(mut):
             res.update(status="does-not-compile", detail=out[-800:])
             return res
         hit = [k for k in keys if mut["expect"] in k]
-        res.update(status="caught" if (rc == 1 and hit) else ("fired-elsewhere" if rc == 1 else "MISSED"),
-                   violations=keys, hit=hit, wall_s=round(time.time() - t0, 1))
+        if mut.get("silent"):
+            res.update(status="silent-ok" if rc == 0 else "FALSE-ALARM", violations=keys, hit=[], wall_s=round(time.time() - t0, 1))
+        else:
+            res.update(status="caught" if (rc == 1 and hit) else ("fired-elsewhere" if rc == 1 else "MISSED"),
+                       violations=keys, hit=hit, wall_s=round(time.time() - t0, 1))
+        if ALL_PROPS:
+            others = {}
+            for i in range(1, 21):
+                q = "C%02d" % i
+                if q == mut["prop"]:
+                    continue
+                shutil.rmtree(os.path.join(evid, "violations"), ignore_errors=True)
+                rc2, out2, keys2 = run_check(q, scratch, evid)
+                if rc2 != 0:
+                    others[q] = keys2 or [out2[-300:]]
+            res["other_checks_firing"] = others
+            res["wall_s"] = round(time.time() - t0, 1)
         return res
     finally:
         shutil.rmtree(scratch, ignore_errors=True)
@@ -103,7 +121,10 @@ def main():
     ap.add_argument("--jobs", type=int, default=3)
     ap.add_argument("--seeded", action="store_true")
     ap.add_argument("--out", default=os.path.join(HERE, "selftest", "results.json"))
+    ap.add_argument("--all-props", action="store_true", help="also run every other property's check on the changed tree")
     a = ap.parse_args()
+    global ALL_PROPS
+    ALL_PROPS = a.all_props
     ms = load_mutants(a)
     res = run(ms, a.jobs)
     summary = {}
@@ -120,7 +141,7 @@ def main():
         prev[r["id"]] = r
     with open(a.out, "w") as fh:
         json.dump({"results": sorted(prev.values(), key=lambda r: r["id"])}, fh, indent=1)
-    return 0 if all(r["status"] == "caught" for r in res) else 1
+    return 0 if all(r["status"] in ("caught", "silent-ok") for r in res) else 1
 
 
 if __name__ == "__main__":
